@@ -26,6 +26,16 @@ class _extract_metadata(FuncADLNodeTransformer):
         """
         return self._metadata
 
+    def generic_visit(self, node: ast.AST) -> ast.AST:
+        # `NodeTransformer.generic_visit` edits the node (and its child lists) in place. Work on a
+        # shallow copy: the AST we were given is left alone, and a node object that stands in
+        # several places is looked at in each of them.
+        new_node = copy.copy(node)
+        for field, value in ast.iter_fields(node):
+            if isinstance(value, list):
+                setattr(new_node, field, list(value))
+        return super().generic_visit(new_node)
+
     def visit_Call(self, node: ast.Call):
         """Detect a MetaData call, and remove it, storing the
         information.
